@@ -1,0 +1,34 @@
+//go:build verif
+
+package connect
+
+import "bytes"
+
+// Hooks for the verification harness (/verif); compiled only with -tags verif.
+
+// VerifPoolHook, when set, observes every buffer handed out by (get=true) or
+// returned to (get=false) a buffer pool.
+var VerifPoolHook func(get bool, pool *bufferPool, buffer *bytes.Buffer)
+
+// VerifPoolPoison makes Put overwrite the released buffer's memory, so that a
+// stale alias shows up as a corrupted payload instead of going unnoticed.
+var VerifPoolPoison bool
+
+func verifPoolGet(pool *bufferPool, buffer *bytes.Buffer) {
+	if hook := VerifPoolHook; hook != nil {
+		hook(true, pool, buffer)
+	}
+}
+
+func verifPoolPut(pool *bufferPool, buffer *bytes.Buffer) {
+	if VerifPoolPoison {
+		raw := buffer.Bytes()
+		raw = raw[:cap(raw)]
+		for i := range raw {
+			raw[i] = 0xDB
+		}
+	}
+	if hook := VerifPoolHook; hook != nil {
+		hook(false, pool, buffer)
+	}
+}
